@@ -70,6 +70,10 @@ type Arm struct {
 	Sticky bool // after firing, every later non-empty write on this handle fails with 0 bytes
 	Err    error
 	fired  bool
+	// StallNs > 0: the first non-empty call of the operation is SLOW — that much
+	// simulated time passes before it is served (see Gate). Independent of Kind;
+	// Active need not be set.
+	StallNs int64
 }
 
 // Handle is one party's view of the disk. It implements io.WriterAt and
@@ -83,6 +87,13 @@ type Handle struct {
 	sticky error
 	// per-operation accounting
 	OpFirst int // index in D.Log of the first call of the current operation
+	G       Gate
+	// set by EndOp: underlying calls that arrived after the operation had
+	// returned (with a description of the first), and calls that were served on
+	// another goroutine than the task's
+	LateCalls    int
+	LateNote     string
+	ForeignCalls int
 }
 
 func (d *Disk) Handle(task int, yield func()) *Handle {
@@ -93,12 +104,15 @@ func (d *Disk) Handle(task int, yield func()) *Handle {
 func (h *Handle) BeginOp(a Arm) {
 	h.arm = a
 	h.OpFirst = len(h.D.Log)
+	h.G.Fired = &h.D.Fired
+	h.G.Begin(a.StallNs)
 }
 
 // EndOp disarms and reports whether the armed fault fired.
 func (h *Handle) EndOp() (fired bool) {
 	fired = h.arm.fired
 	h.arm = Arm{}
+	h.LateCalls, h.LateNote, h.ForeignCalls = h.G.End()
 	return
 }
 
@@ -113,10 +127,20 @@ func (h *Handle) OpRecv() []Recv {
 	return out
 }
 
+// ErrLate is what a call gets that arrives after the library call it belongs to
+// has returned: it is not served.
+var ErrLate = errors.New("simio: call arrived after the operation had returned")
+
 func (h *Handle) WriteAt(p []byte, off int64) (int, error) {
-	if h.Yield != nil {
+	yield, late := h.G.enter(len(p), "WriteAt", off)
+	if late {
+		return 0, ErrLate
+	}
+	if yield && h.Yield != nil {
 		h.Yield()
 	}
+	h.G.mu.Lock()
+	defer h.G.mu.Unlock()
 	d := h.D
 	if off < 0 {
 		// a negative absolute offset is recorded (it is evidence of a
@@ -287,7 +311,7 @@ func (d *Disk) readByte(off int64) byte {
 // ReadAt reads the durable image (io.ReaderAt contract: n < len(p) implies a
 // non-nil error).
 func (h *Handle) ReadAt(p []byte, off int64) (int, error) {
-	if h.Yield != nil {
+	if h.G.taskGoid == 0 && h.Yield != nil { // (reads are not gated: only a scheduling point on the task's own goroutine)
 		h.Yield()
 	}
 	d := h.D
